@@ -543,16 +543,7 @@ func (m *machine) applyParamsOp(op hOp) error {
 			MinBlockLock: a.MinLock, MaxBlockLock: a.MaxLock,
 		})
 	}
-	var before chain.Sheet
-	if m.c03() {
-		before = m.c.Snapshot()
-	}
 	res := m.c.Deliver(&htlctypes.MsgUpdateParams{Authority: m.c.E.Gov.String(), Params: ps})
-	if m.c03() {
-		if d := chain.Diff(before, m.c.Snapshot()); !d.Empty() {
-			return pbt.Failf("C03/params-moved-coins", "parameter update moved coins: %s", d)
-		}
-	}
 	if res.Outcome == chain.OK {
 		if strict && !validAssets(op.Assets, len(m.c.E.Users)) {
 			return pbt.Failf("harness/params-prediction", "invalid parameters accepted: %+v", op.Assets)
